@@ -20,6 +20,7 @@ import sys
 
 T0 = 1000.0          # virtual epoch (seconds); now = T0 + now_ms / 1000
 FIRST_PID = 100
+CALL_LIMIT = 20000      # kernel calls within one atomic step
 SPIN_LIMIT = 20000
 
 
@@ -109,11 +110,19 @@ class Kernel(object):
     # -- system calls
     def spawn(self, info):
         self.tick()
+        # a step that forks without end (a retry loop that lost its bound) is a daemon that hangs: nothing else runs
+        if self.calls > CALL_LIMIT:
+            self.blocked = True
+            raise Blocked()
         b = self.behav[self.attempt % len(self.behav)]
         self.attempt += 1
         if b.get("exec_fail"):
             self.out("o execfail")
-            raise OSError(_errno.ENOENT, "No such file or directory")
+            # whatever the reason fork/exec fails for — a missing file, no permission, no more processes, no memory —
+            # it is one failed attempt of the max_retry the watcher has
+            # (the reason stays the same for a streak of failures: the pid counter does not move while fork fails)
+            err = (_errno.EAGAIN, _errno.ENOENT, _errno.ENOMEM, _errno.EACCES)[self.next_pid % 4]
+            raise OSError(err, os.strerror(err))
         pid = self.next_pid
         self.next_pid += 1
         self.procs[pid] = SimProc(pid, 0, b)
